@@ -88,3 +88,46 @@ func VerifC16Modes() {
 	vrt.Assert(fileOut == written, "script-output-equals-repl-written-output")
 	vrt.Cover("done")
 }
+
+var c16Lines = [...]string{
+	"a = a + 1",
+	"c = 5",
+	"if 1 < 2 a = 10 else b = 20",
+	"if 2 < 1 a = 30 else b = 40",
+	"while a < 3 a = a + 1",
+	"for i <- fromto(0, 2) b = b + i",
+	"f = (n) -> n + a",
+	"b = f(2)",
+	"write(toa(a) + \"\\n\")",
+	"if a < 5 write(\"s\\n\")",
+	"[a, b][0]",
+	"{\na = a * 2\nb = b + a\n}",
+}
+
+// stripEcho removes the REPL's echo of each statement's value ("> ..." lines).
+func stripEcho(s string) string {
+	out := ""
+	for _, ln := range strings.SplitAfter(s, "\n") {
+		if strings.HasPrefix(ln, "> ") {
+			continue
+		}
+		out += ln
+	}
+	return out
+}
+
+// VerifC16Script: a script of several statements run from a file (results discarded) leaves the
+// same state and writes the same output as the same statements typed into the REPL.
+func VerifC16Script() {
+	k := vrt.Param("scriptlen", 3)
+	text := "a = 0\nb = 0\nc = 0\nf = (n) -> n"
+	for i := 0; i < k; i++ {
+		text += "\n" + c16Lines[vrt.Choice("line", len(c16Lines))]
+	}
+	text += "\nwrite(toa([a, b, c]) + \"\\n\")"
+	vrt.Note("script", text)
+	replOut := stripEcho(loopOver(text, false))
+	fileOut := loopOver(text, true)
+	vrt.Assert(fileOut == replOut, "script-equals-repl")
+	vrt.Cover("done")
+}
